@@ -37,7 +37,7 @@ func init() {
 		MaxSteps:     600000,
 		YieldFiles:   []string{"httpproxy/server.go"},
 		QuickRuns:    8000,
-		ThoroughSecs: 600,
+		ThoroughSecs: 400,
 		Rule: "one run = one proxy connection: a generated sequence of 1..20 requests (methods, absolute/origin-form targets, end-to-end and connection-specific " +
 			"header sets with Connection nominations and casing, bodies by Content-Length or chunked with trailers, Expect: 100-continue, proxy credentials, " +
 			"a later request for another host / CONNECT / Connection: close), an origin script per request (1xx interim responses, final status, framing, " +
